@@ -248,3 +248,50 @@ def r16_5_calendar_retention(ctx: Ctx) -> RuleResult:
     files = anchor_files("C16")
     check_retention(ctx, rr, lambda f: f.mod.rel in files)
     return rr
+
+
+@rule("C16")
+def r16_6_week_year_admission(ctx: Ctx) -> RuleResult:
+    """A week-year is accepted exactly when at least one of its days lies in the calendar: on every ordering of
+    (start of week-year max+1, last calendar day) and (start of week-year min, first calendar day)."""
+    from ..absint import AtomV, Obj
+    from ..oblig import interp as mk
+
+    rr = RuleResult("R16.6", "week-year admission at the calendar's ends: week-year max+1 is accepted iff it starts on or before the calendar's last day, week-year min-1 iff week-year min starts after the calendar's first day (every ordering of the two day numbers)", min_instances=9)
+    M = ctx.M
+    f = M.func("_SimpleWeekYearRule.__validate_week_year")
+    MINY, MAXY = -9998, 9999
+    for r_max in (-1, 0, 1):  # start(max+1) <,=,> max_days
+        for r_min in (-1, 0, 1):  # start(min) <,=,> min_days
+            rr.inst()
+            rr.states += 1
+            I = mk(ctx)
+            I.max_depth = 6
+            I.hooks_all_depths = True
+            I.ranks = {"startmax": 10 + r_max, "maxd": 10, "startmin": 5 + r_min, "mind": 5}
+
+            def stub(args, kws, recv):
+                y = args[1] if len(args) > 1 else kws.get("week_year")
+                return AtomV("startmax") if isinstance(y, Iv) and y.const and y.lo == MAXY + 1 else AtomV("startmin")
+
+            I.stubs["_SimpleWeekYearRule.__get_week_year_days_since_epoch"] = stub
+            seen: list[tuple] = []
+
+            def on_call(c, callee, bound, st, fn):
+                if callee.qual == "_Preconditions._check_argument_range":
+                    seen.append((bound.get("min_inclusive"), bound.get("max_inclusive")))
+
+            I.on_call = on_call
+            cal = Obj("CalendarSystem", {mangle("CalendarSystem", "__min_year"): Iv(MINY, MINY), mangle("CalendarSystem", "__max_year"): Iv(MAXY, MAXY),
+                                         mangle("CalendarSystem", "__min_days"): AtomV("mind"), mangle("CalendarSystem", "__max_days"): AtomV("maxd")})
+            so = Obj("_SimpleWeekYearRule", {mangle("_SimpleWeekYearRule", "__irregular_weeks"): Iv(0, 0)})
+            I.analyse(f, self_obj=so, params={"week_year": Iv(MAXY + 1, MAXY + 1), "calendar": cal})
+            want = (Iv(MINY - 1, MINY - 1) if r_min > 0 else Iv(MINY, MINY), Iv(MAXY + 1, MAXY + 1) if r_max <= 0 else Iv(MAXY, MAXY))
+            label = {"start(max+1) vs last day": "<=>"[r_max + 1], "start(min) vs first day": "<=>"[r_min + 1]}
+            if I.escaped:
+                rr.undecided.append(f"{label}: left the order fragment: {I.escaped[:1]}")
+            elif seen == [want]:
+                rr.ok({"ordering": label, "admitted": [int(want[0].lo), int(want[1].lo)]})
+            else:
+                rr.fail(f.qual, f"on the ordering {label} the admitted week-years are {[(repr(a), repr(b)) for a, b in seen]}, a week-year with a day inside the calendar needs [{int(want[0].lo)}, {int(want[1].lo)}]", ctx.loc(f))
+    return rr
